@@ -784,7 +784,7 @@ func (g *Gen) tx() Op {
 			op.Data = append(op.Data, li.metas[r.Intn(len(li.metas))].DataId)
 		}
 		if bad {
-			switch r.Intn(4) {
+			switch r.Intn(5) {
 			case 0:
 				op.Signer = g.Owners[r.Intn(len(g.Owners))] + 1
 				op.Owner = op.Signer
@@ -794,6 +794,9 @@ func (g *Gen) tx() Op {
 				op.Duration = 60*60*24*365*2 + uint64(r.Intn(2))
 			case 3:
 				op.Creator = 11
+			case 4:
+				// a data id nobody stored, in front of the real one: that entry fails, the rest of the batch goes on
+				op.Data = append([]string{g.newDataId()}, op.Data...)
 			}
 		}
 		return op
